@@ -218,14 +218,15 @@ pub fn lazy_find(case: &Case, src: Vec<V>, pred_mask: Option<u16>, negate: bool)
         match pred_mask {
             None => it.next(),
             Some(mask) => it.find(|(v, _)| {
-                let hit = mask_hit(v.val, mask) != negate;
+                // `extra` is the user predicate's own result; `all` searches for its negation
+                let raw = mask_hit(v.val, mask);
                 log.borrow_mut().push(MEv {
                     pred: true,
                     stage: 0,
                     uid: v.uid,
-                    extra: hit as u32,
+                    extra: raw as u32,
                 });
-                hit
+                raw != negate
             }),
         }
     };
